@@ -3,6 +3,7 @@ package main
 // `gocv check`: decide one property on the current working tree of /repo.
 
 import (
+	"go/types"
 	"crypto/sha256"
 	"encoding/hex"
 	"encoding/json"
@@ -140,6 +141,18 @@ func runProperty(id, tier string, timeout int, overlay map[string][]byte, only s
 			return nil, fmt.Errorf("contracts: %v", err)
 		}
 		run.files = append(run.files, e.db.Files...)
+		for _, mc := range e.db.MethodSets {
+			serves := false
+			for _, p := range mc.Props {
+				if p == id {
+					serves = true
+				}
+			}
+			if !serves || (only != "" && !strings.Contains(mc.Name, only)) {
+				continue
+			}
+			run.results = append(run.results, e.checkMethodSet(mc))
+		}
 		for _, k := range e.db.SortedKeys() {
 			con := e.db.Contracts[k]
 			ok, labels := propLabels(con, id)
@@ -157,6 +170,16 @@ func runProperty(id, tier string, timeout int, overlay map[string][]byte, only s
 			run.labels[k] = labels
 			run.contract[k] = con
 			r := e.VerifyFunc(fn, con)
+			if labels != nil {
+				// only the clauses that serve this property are discharged
+				kept := r.Obls[:0]
+				for _, o := range r.Obls {
+					if o.Kind == "cover" || labels[o.Label] || labels["kind:"+o.Kind] {
+						kept = append(kept, o)
+					}
+				}
+				r.Obls = kept
+			}
 			h := sha256.New()
 			fn.WriteTo(h)
 			run.ssaHash[k] = hex.EncodeToString(h.Sum(nil))[:16]
@@ -168,7 +191,7 @@ func runProperty(id, tier string, timeout int, overlay map[string][]byte, only s
 	}
 	Discharge(solver, run.results, nil)
 	for _, g := range GroupObligations(run.results) {
-		if ls := run.labels[g.Func]; ls != nil && g.Kind != "cover" && !ls[g.Label] {
+		if ls := run.labels[g.Func]; ls != nil && g.Kind != "cover" && !ls[g.Label] && !ls["kind:"+g.Kind] {
 			continue
 		}
 		run.groups = append(run.groups, g)
@@ -458,4 +481,45 @@ func cmdReplay(args []string) {
 		os.Exit(2)
 	}
 	os.Stdout.Write(b)
+}
+
+// checkMethodSet resolves a method through the method set of *T the way an interface call
+// does, and requires it to be declared on the expected type (a ground obligation decided by
+// go/types, not by SMT).
+func (e *Engine) checkMethodSet(mc *MethodSetCheck) *FuncResult {
+	key := mc.Pkg + "." + mc.Recv + "." + mc.Name + "$methodset"
+	res := &FuncResult{Key: key, Unmodelled: map[string]int{}, Assumed: map[string]int{}, Notes: map[string]int{}, Inlined: map[string]int{}}
+	o := &Obligation{Func: key, Name: "ground[declared-on " + mc.DeclaredOn + "]", Kind: "ground", Label: "declared-on", Where: mc.Where, Goal: tTrue}
+	res.Obls = []*Obligation{o}
+	p := e.allPkgs[mc.Pkg]
+	msg := ""
+	if p == nil || p.Types == nil {
+		msg = "package not loaded"
+	} else if obj := p.Types.Scope().Lookup(mc.Recv); obj == nil {
+		msg = "type " + mc.Recv + " not found"
+	} else {
+		ms := types.NewMethodSet(types.NewPointer(obj.Type()))
+		sel := ms.Lookup(p.Types, mc.Name)
+		if sel == nil {
+			msg = "method " + mc.Name + " is not in the method set of *" + mc.Recv
+		} else {
+			fn := sel.Obj().(*types.Func)
+			recv := fn.Type().(*types.Signature).Recv()
+			n := namedOf(recv.Type())
+			if n == nil || n.Obj().Name() != mc.DeclaredOn || len(sel.Index()) != 1 {
+				got := "?"
+				if n != nil {
+					got = n.Obj().Name()
+				}
+				msg = fmt.Sprintf("(*%s).%s resolves to the method promoted from %s, not to one declared on %s", mc.Recv, mc.Name, got, mc.DeclaredOn)
+			}
+		}
+	}
+	if msg == "" {
+		o.Res = &SolveResult{Status: "unsat", Backend: "go/types"}
+	} else {
+		o.Res = &SolveResult{Status: "sat", Backend: "go/types", Output: msg}
+		o.Query = "; " + msg
+	}
+	return res
 }
